@@ -272,8 +272,11 @@ class StorageBase(metaclass=ABCMeta):
 
         # create the field with the data of the given index
         assert self._field is not None
-        field = self._field.copy()
-        field.data = self.data[t_index]
+        data = np.asanyarray(self.data[t_index])
+        # frames written in an earlier session might need a wider data type than the
+        # field of the current session, so we promote the type to not lose information
+        field = self._field.copy(dtype=np.result_type(self._field.dtype, data.dtype))
+        field.data = data
         return field
 
     def __getitem__(self, key: int | slice) -> FieldBase | list[FieldBase]:
